@@ -246,7 +246,9 @@ def r3(ctx):
                 if clangq.is_pointer_type(clangq.qual(clangq.strip_casts(x))) or clangq.is_pointer_type(clangq.qual(x)):
                     ptr_cmp.append(b)
     ctx.ob("ReadSet::read_comparator_t::operator()", "no-address-comparison", not ptr_cmp, "src/readset.h:%s" % clangq.line_of(op), "the comparator never orders by pointer value" if not ptr_cmp else "the comparator compares pointers: %s" % clangq.expr_text(ptr_cmp[0]))
-    texts = [clangq.expr_text(r["inner"][0]) if r.get("inner") else "" for r in rets]
+    # single-assignment locals (`const int pos1 = r1->firstPosition();`) are expanded to their initialisers
+    env_c = clangq.local_inits(op)
+    texts = [clangq.expr_text(r["inner"][0], env_c) if r.get("inner") else "" for r in rets]
     last = texts[-1]
     ok_last = "getSourceID" in last and "<" in last
     name_cmp = any("compare" in clangq.expr_text(d) for d in clangq.find(op, "VarDecl")) or any("compare" in t for t in texts)
